@@ -51,3 +51,18 @@ Print Assumptions C14_two_vs_list.
 (* non-vacuity: an admissible selection that is neither a prefix nor in order *)
 Example C14_nonvacuous : check_indices 4 [3; 0; 2]%nat = true /\ pairs_of [3; 0; 2]%nat = [(3, 0); (3, 2); (0, 2)]%nat.
 Proof. split; reflexivity. Qed.
+
+(* ---- executed instance (Q, extracted to OCaml and run against /repo) = the real-number functions
+   the theorems above are about: kernel-checked parametricity bridge (Bridge.v).  qL = map Q2R etc. ---- *)
+From Coq Require Import QArith Qreals.
+From PS Require Import Bridge.
+Local Close Scope Q_scope.
+Theorem C14_exec_isi_distance_multi_transfer : forall (eps : Q) (cy rc : bool) (m : Q) (iv : option (Q * Q)) (l : list train) (idx : option (list nat)), rmap Q2R (isi_distance_multi QOps eps cy rc m iv l idx) = isi_distance_multi ROps (Q2R eps) cy rc (Q2R m) (qIv iv) (map qTrain l) idx.
+Proof. exact isi_distance_multi_transfer. Qed.
+Print Assumptions C14_exec_isi_distance_multi_transfer.
+Theorem C14_exec_spike_sync_multi_transfer : forall (eps : Q) (cy rc : bool) (mt m : Q) (iv : option (Q * Q)) (l : list train) (idx : option (list nat)), rmap Q2R (spike_sync_multi QOps eps cy rc mt m iv l idx) = spike_sync_multi ROps (Q2R eps) cy rc (Q2R mt) (Q2R m) (qIv iv) (map qTrain l) idx.
+Proof. exact spike_sync_multi_transfer. Qed.
+Print Assumptions C14_exec_spike_sync_multi_transfer.
+Theorem C14_exec_directionality_values_transfer : forall (eps : Q) (cy rc : bool) (mt m : Q) (l : list train) (idx : option (list nat)), rmap (map qL) (directionality_values QOps eps cy rc mt m l idx) = directionality_values ROps (Q2R eps) cy rc (Q2R mt) (Q2R m) (map qTrain l) idx.
+Proof. exact directionality_values_transfer. Qed.
+Print Assumptions C14_exec_directionality_values_transfer.
